@@ -597,8 +597,11 @@ def check_flow(case):
 
 
 SUBCHECKS = [
-    SubCheck("opp", lambda: case_opp, check_opp, quick=1500, thorough=60000, procs_quick=4),
-    SubCheck("fast", lambda: case_fast, check_fast, quick=1200, thorough=50000, procs_quick=4),
-    SubCheck("pkone", lambda: case_pk, check_pkone, quick=1500, thorough=40000, procs_quick=2),
+    SubCheck("opp", lambda: case_opp, check_opp, quick=1500, thorough=60000, procs_quick=4,
+             fuzz={"quick": 1500, "thorough": 100000, "modules": ['mpf.platforms.opp.opp', 'mpf.platforms.opp.opp_serial_communicator', 'mpf.platforms.opp.opp_rs232_intf']}),
+    SubCheck("fast", lambda: case_fast, check_fast, quick=1200, thorough=50000, procs_quick=4,
+             fuzz={"quick": 1500, "thorough": 100000, "modules": ['mpf.platforms.fast.fast', 'mpf.platforms.fast.communicators.base', 'mpf.platforms.fast.communicators.net_neuron']}),
+    SubCheck("pkone", lambda: case_pk, check_pkone, quick=1500, thorough=40000, procs_quick=2,
+             fuzz={"quick": 2000, "thorough": 150000, "modules": ['mpf.platforms.pkone.pkone', 'mpf.platforms.pkone.pkone_serial_communicator']}),
     SubCheck("flow", lambda: case_flow, check_flow, quick=600, thorough=20000, procs_quick=2),
 ]
